@@ -144,12 +144,15 @@ var ctx = context.Background()
 // opCtx is the context handed to the SDK for the operation in progress (cancellable by a fault plan).
 var opCtx, opCancel = context.WithCancel(context.Background())
 
+// longAtom makes key ids longer than 255 bytes (the RDBMS column width in the docs).
+var longAtom = strings.Repeat("L", 250)
+
 // idAlphabet is small and adversarial on purpose.
 func drawID(t *rapid.T, label string, simple bool, extra ...string) string {
 	if simple {
 		return rapid.SampledFrom([]string{"a", "b", "c", "svc", "prod", "p1", "p2", "x9"}).Draw(t, label)
 	}
-	pool := append([]string{"a", "b", "ab", "a_b", "_", "IK", "SK", "_IK_", "_SK_", "é", "us-west-2", "0", "A", " ", "a_", "_a"}, extra...)
+	pool := append([]string{"a", "b", "ab", "a_b", "_", "IK", "SK", "_IK_", "_SK_", "é", "us-west-2", "0", "A", " ", "a_", "_a", longAtom}, extra...)
 	n := rapid.IntRange(1, 3).Draw(t, label+"_n")
 	var sb strings.Builder
 	for i := 0; i < n; i++ {
